@@ -262,7 +262,10 @@ fn check_calc_pipe<const N: usize>() {
     let first = if n0 > 0 { Some(snap(&s, 0)) } else { None };
     let rtt_ms: u64 = kani::any();
     kani::assume(rtt_ms <= 120_000);
-    let p = s.calc_pipe(SeqNr(kani::any()), SeqNr(kani::any()), Duration::from_millis(rtt_ms), any_instant());
+    let high_data = SeqNr(kani::any());
+    // precondition A12 (dispatcher invariant, assumed): high_data (= last_sent_seq_nr) <= snd_una + queued segments
+    kani::assume(high_data - s.snd_una <= N as isize);
+    let p = s.calc_pipe(SeqNr(kani::any()), high_data, Duration::from_millis(rtt_ms), any_instant());
     assert!(p.pipe <= 2 * total);
     assert!(wf(&s));
     assert!(s.segments.len() == n0);
@@ -389,22 +392,22 @@ fn iter_n2() { check_iter::<2>(); }
 #[kani::unwind(6)]
 fn iter_n3() { check_iter::<3>(); }
 
-//@ harness id=txseg.k.calc_pipe.n0 kind=bounded props=C10 tier=thorough timeout=1500 bound="N_SEG==0" text="calc_pipe for any high_rxt/high_data: no panic; pipe <= 2 * queued bytes; sizes/offsets untouched"
+//@ harness id=txseg.k.calc_pipe.n0 kind=bounded props=C10 tier=thorough timeout=1500 bound="N_SEG==0" text="calc_pipe for any high_rxt and any high_data <= snd_una + queue length (A12): no panic; pipe <= 2 * queued bytes; sizes/offsets untouched"
 #[kani::proof]
 #[kani::unwind(3)]
 fn calc_pipe_n0() { check_calc_pipe::<0>(); }
 
-//@ harness id=txseg.k.calc_pipe.n1 kind=bounded props=C10 tier=thorough timeout=1500 bound="N_SEG==1" text="calc_pipe for any high_rxt/high_data: no panic; pipe <= 2 * queued bytes; sizes/offsets untouched"
+//@ harness id=txseg.k.calc_pipe.n1 kind=bounded props=C10 tier=thorough timeout=1500 bound="N_SEG==1" text="calc_pipe for any high_rxt and any high_data <= snd_una + queue length (A12): no panic; pipe <= 2 * queued bytes; sizes/offsets untouched"
 #[kani::proof]
 #[kani::unwind(4)]
 fn calc_pipe_n1() { check_calc_pipe::<1>(); }
 
-//@ harness id=txseg.k.calc_pipe.n2 kind=bounded props=C10 tier=thorough timeout=1500 bound="N_SEG==2" text="calc_pipe for any high_rxt/high_data: no panic; pipe <= 2 * queued bytes; sizes/offsets untouched"
+//@ harness id=txseg.k.calc_pipe.n2 kind=bounded props=C10 tier=thorough timeout=1500 bound="N_SEG==2" text="calc_pipe for any high_rxt and any high_data <= snd_una + queue length (A12): no panic; pipe <= 2 * queued bytes; sizes/offsets untouched"
 #[kani::proof]
 #[kani::unwind(5)]
 fn calc_pipe_n2() { check_calc_pipe::<2>(); }
 
-//@ harness id=txseg.k.calc_pipe.n3 kind=bounded props=C10 tier=thorough timeout=1500 bound="N_SEG==3" text="calc_pipe for any high_rxt/high_data: no panic; pipe <= 2 * queued bytes; sizes/offsets untouched"
+//@ harness id=txseg.k.calc_pipe.n3 kind=bounded props=C10 tier=thorough timeout=1500 bound="N_SEG==3" text="calc_pipe for any high_rxt and any high_data <= snd_una + queue length (A12): no panic; pipe <= 2 * queued bytes; sizes/offsets untouched"
 #[kani::proof]
 #[kani::unwind(6)]
 fn calc_pipe_n3() { check_calc_pipe::<3>(); }
